@@ -9,8 +9,8 @@
 (*   Distance(T, p, q)   = |A symdiff B| / |A union B|  (Jaccard distance  *)
 (*                         of the line sets of p and q)                    *)
 (*   Divergence(T)       = mean of Distance over unordered platform pairs  *)
-(* undefined (NaN): no lines at all; no platforms; neither platform uses a *)
-(* line (distance); fewer than two platforms (divergence).                 *)
+(* undefined (NaN): no lines at all; no platforms; neither of two DISTINCT *)
+(* platforms uses a line (distance); fewer than two platforms (divergence).*)
 (***************************************************************************)
 EXTENDS Naturals, Integers, Sequences, FiniteSets, TLC
 
@@ -47,7 +47,8 @@ AvgCoverage(T, S) == IF S = {} \/ Total(T) = 0 THEN NaN
 Distance(T, p, q) ==
   LET un == SumF([k \in Keys(T) |-> IF p \in k \/ q \in k THEN T[k] ELSE 0])
       sd == SumF([k \in Keys(T) |-> IF (p \in k) # (q \in k) THEN T[k] ELSE 0])
-  IN IF un = 0 THEN NaN ELSE Norm(sd, un)
+  IN IF p = q THEN <<0, 1>>            \* zero on the diagonal, always
+     ELSE IF un = 0 THEN NaN ELSE Norm(sd, un)
 
 Pairs(S) == {pq \in SUBSET S : Cardinality(pq) = 2}
 Divergence(T) ==
